@@ -13,6 +13,7 @@ from vlib.runner import SubProp, Violation, VERIF_ROOT
 from mir_eval import io as mio
 
 PROPERTY_ID = "C20"
+SCALE = (3, 4)   # budget multiplier (quick, thorough) applied to the n=(...) of every generated sub-property
 LEVEL = "exploration"
 RULE = ("files for each of the 10 loaders: rows of finite floats written with repr (exponents, negatives, subnormals, -0.0), labels = "
         "unicode text without newline characters and without leading/trailing whitespace (internal whitespace and delimiter characters "
